@@ -819,7 +819,53 @@ func allPathsBoth(e GExpr) bool {
 	return false
 }
 
+// spellingHistory: ONE evaluator per spelling, reused over data on which the operator succeeds, then fails with an
+// error that names the selector, then succeeds again: the spellings agree at every step (a selector printed for
+// the message must not change what the evaluator resolves afterwards).
+func spellingHistory(o *Out) {
+	for _, key := range []string{"svc/web", "ti~lde", "a~1b", "x~0", "p.q", "~", "/", "plain"} {
+		bracket := "r[" + quoteDouble(key) + "].tags"
+		tick := "r[`" + key + "`].tags"
+		pointer := "\"/r/" + ptrEscape(key) + "/tags\""
+		good := map[string]interface{}{"r": map[string]interface{}{key: map[string]interface{}{"tags": []interface{}{"prod"}}}}
+		bad := map[string]interface{}{"r": map[string]interface{}{key: map[string]interface{}{"tags": nil}}}
+		bad2 := map[string]interface{}{"r": map[string]interface{}{key: map[string]interface{}{"tags": 5}}}
+		history := []interface{}{good, bad, good, bad2, bad, good}
+		for _, form := range []string{"%s is not empty", "prod in %s", "any %s as t { t == prod }", "not (%s is empty)", "all %s as i, t { i == 0 and t matches `^pr` }"} {
+			var evs []*bexpr.Evaluator
+			var texts []string
+			for _, sel := range []string{bracket, tick, pointer} {
+				text := fmt.Sprintf(form, sel)
+				if ev, _ := create(text, nil); ev != nil {
+					evs, texts = append(evs, ev), append(texts, text)
+				}
+			}
+			if len(evs) != 3 {
+				o.finding(Finding{Property: "C07", Kind: "failing-input", What: fmt.Sprintf("one spelling of the key %q is rejected at creation (%d of 3 accepted)", key, len(evs)), Request: "parse 0 " + hx(fmt.Sprintf(form, pointer))})
+				continue
+			}
+			for step, d := range history {
+				var outs []string
+				for _, ev := range evs {
+					outs = append(outs, norm(safeEvaluate(ev, d)))
+				}
+				o.meta.Cases += 3
+				want := ""
+				if step == 0 || step == 2 || step == 5 {
+					want = "T"
+				}
+				if outs[0] != outs[1] || outs[0] != outs[2] || (want != "" && outs[0] != want) {
+					req := "eval ( opts ) " + hx(texts[2]) + " " + serAny(d) + " ( re )"
+					o.finding(Finding{Property: "C07", Kind: "failing-history", What: fmt.Sprintf("step %d of good,bad,good,bad2,bad,good on reused evaluators: bracket %s, backtick %s, pointer %s (want equal%s)", step, outs[0], outs[1], outs[2], map[bool]string{true: ", T", false: ""}[want != ""]), Request: req, Detail: strings.Join(texts, " | ")})
+					break
+				}
+			}
+		}
+	}
+}
+
 func fragSpelling(g *Gen, n int, o *Out) {
+	spellingHistory(o)
 	// two different paths whose dotted renderings coincide, used in ONE expression
 	for i := 0; i < n/10+1; i++ {
 		r1, r2 := []string{"r1", "a", "1"}[g.r.Intn(3)], []string{"r2", "b", "2"}[g.r.Intn(3)]
